@@ -107,7 +107,7 @@ def atom_of(c):
     if s is not None:
         return "%s%s%d" % (s, REL_SYM[op], kb)
     # option payload conditions
-    if a[0] == "call" and a[1].endswith("::len") and T.has_call(a, "::payload"):
+    if ((a[0] == "call" and a[1].endswith("::len")) or (a[0] == "unop" and a[1] == "PtrMetadata")) and T.has_call(a, "::payload"):
         return "optlen%s%d" % (REL_SYM[op], kb)
     if a[0] == "call" and a[1].endswith("from_be_bytes") and T.has_call(a, "::payload"):
         r = _ranges_in(a)
@@ -205,6 +205,17 @@ def rule_R2(ctx):
                      "and every signature listing it is unreachable" % v)
 
 
+def _elem_index(e):
+    """constant position of a payload element: payload[k] or the k-th binding of a slice pattern"""
+    while e[0] in ("deref", "ref"):
+        e = T.strip(e[-1])
+    if e[0] == "index":
+        return fold(T.strip(e[2]))
+    if e[0] == "cindex" and not e[3]:
+        return e[2]
+    return None
+
+
 def rule_R1_options(ctx):
     P = ctx.program
     b = P.body(TP + "visit_tcp")
@@ -284,7 +295,7 @@ def rule_R1_options(ctx):
             conds = [atom_of(c) for c in Q.canon_conds(P, T.dom_conds(b, S, i))]
             if inner[0] == "call" and inner[1].endswith("u16>::from_be_bytes") and "opt==2" in conds:
                 arr = T.strip(inner[2][0])
-                idx = [fold(T.strip(e)[2]) for e in arr[4] if T.strip(e)[0] == "index"] if arr[0] == "agg" else []
+                idx = [_elem_index(T.strip(e)) for e in arr[4]] if arr[0] == "agg" else []
                 okmss = idx == [0, 1] and "optlen>=2" in conds
             if "opt==3" in conds and inner[0] in ("index", "deref", "call", "cindex", "field", "downcast") and T.has_call(inner, "::payload"):
                 okws = True
